@@ -543,6 +543,27 @@ func coderFree(r *Run, iters int) {
 				r.Violate("bytes-differ-from-single", "free-running GenerateParity(kind=%d d=%d p=%d len=%d g=%d): shard %d differs", kind, d, p, length, g, i)
 			}
 		}
+		if t.Bool(1, 3, "coder-reused-other-length") {
+			// the same coder value used again for shards of another length
+			// (a few bytes longer or shorter, or another multiple of 16):
+			// nothing a coder remembers from one call may shape the next
+			l2 := length + []int{2, 4, 6, 8, 10, 12, 14, 16, 32, -2, -4, -14, -16}[t.Draw(13, "len-delta")]
+			if l2 < 2 {
+				l2 = length + 2
+			}
+			data2 := genShards(r, d, l2)
+			var got2 [][]byte
+			vs, pan := r.coderOp("generate-free-reused", SchedSpec{Mode: sched.Jitter}, func() { got2 = c.GenerateParity(data2) })
+			r.reportSched("GenerateParity (free-running, coder reused)", vs, pan)
+			want2 := c1.GenerateParity(data2)
+			for i := range want2 {
+				if i >= len(got2) || !bytes.Equal(want2[i], got2[i]) {
+					r.Violate("bytes-differ-from-single", "free-running GenerateParity(kind=%d d=%d p=%d g=%d) on a coder used before with len=%d, now len=%d: shard %d differs", kind, d, p, g, length, l2, i)
+					break
+				}
+			}
+			r.Probe("coder-reused-with-another-length")
+		}
 		dm := cloneShards(data)
 		k := t.Draw(min(d, p)+1, "missing")
 		if manyMissing {
